@@ -29,6 +29,7 @@ def reader(name):
         "oneof": [F("a", 1, "int32", group="g"), F("b", 2, "string", group="g"), F("c", 3, "message", group="g", msg="Leaf")],
         "optional": [F("v", 1, "int32", "optional"), F("w", 2, "message", wraps="string")],
         "two": [F("a", 1, "int64"), F("b", 2, "bytes")],
+        "rep+single": [F("r", 1, "int32", "repeated"), F("s", 2, "int32"), F("t", 3, "sint32", "repeated"), F("u", 4, "sint32")],
     }[name]
     return Catalogue("c17-" + name, [leaf, Shape("M", fields)], [STD_ENUM])
 
@@ -182,14 +183,17 @@ def h_wiretype(env):
         payload = SymBytes([])
     # a correctly encoded occurrence of another field first, so that "does not alter known fields" is visible
     before = SymBytes([])
-    if len(s.fields) > 1:
+    if env.params["reader"] == "rep+single":
+        # a valid packed occurrence of the repeated twin first
+        before = sw.cat(sw.len_field(1, sw.scalar_payload("int32", env.int("r0", 0, 63))), sw.len_field(3, sw.scalar_payload("sint32", env.int("t0", -64, 63))))
+    elif len(s.fields) > 1:
         other = [g for g in s.fields if g is not f and not g.group][:1]
         if other and other[0].kind in sw.RANGES:
             before = sw.field(other[0].number, other[0].kind, env.int("other", 1, 63))
     judge(env, cat, before + sw.tag(f.number, wt) + payload)
 
 
-READERS = ["int32", "sint64", "bool", "fixed32", "double", "string", "bytes", "message", "packed", "repstring", "map", "oneof", "optional", "two"]
+READERS = ["int32", "sint64", "bool", "fixed32", "double", "string", "bytes", "message", "packed", "repstring", "map", "oneof", "optional", "two", "rep+single"]
 
 
 def units(tier):
